@@ -788,9 +788,36 @@ def replay(ctx, rep) -> int:
 
 # ----------------------------------------------------------------------------------------- manifest texts
 
-THEOREMS = [
-    "FaxVerif.C06.source_recognised",
-]
+THEOREMS = ["FaxVerif.C06." + t for t in [
+    "source_recognised",
+    "builtin_rows",
+    "builtin_names",
+    "builtin_specs",
+    "default_types",
+    "documented_keys",
+    "whitelist_keys_read_partial",
+    "whitelist_keys_read_counterexample",
+    "bank_substitution",
+    "retrieval",
+    "retrieval_typename_counterexample",
+    "singleton_is_value",
+    "failed_retrieve_aborts",
+    "unchecked_retrieve_counterexample",
+    "validate_iff",
+    "validate_iff_cms_partial",
+    "validate_cms_singleton_counterexample",
+    "validate_declares",
+    "element_pointer_counterexample",
+    "backend_refused",
+    "override",
+    "call_shape",
+    "call_shape_job",
+    "dedup",
+    "job_includes",
+    "run_spec_partial",
+    "miniaod_tokens_distinct",
+    "run_spec_element_pointer_counterexample",
+]]
 
 RULE = ""
 TRUSTED_BASE: List[str] = []
